@@ -148,10 +148,65 @@ def pairs(F):
     return out, only_plain, only_sync
 
 
+PLUMBING = re.compile(r'^(std::iter::Iterator::(?!rev$|skip$|take$|step_by$|skip_while$|take_while$|rposition$|rfind$|last$|max\w*$|min\w*$|sum$|product$|nth\w*$)\w+|'
+                      r'<std::[^>]* as std::iter::Iterator>::\w+|<std::[^>]* as std::iter::DoubleEndedIterator>::\w+|std::option::Option::\w+|std::result::Result::\w+|'
+                      r'\[T\]::iter|std::vec::Vec::iter|<&std::vec::Vec as std::iter::IntoIterator>::into_iter|<std::vec::Vec as std::iter::IntoIterator>::into_iter)$')
+
+
+def coarse(F, b, seen=None):
+    """control-structure-free abstraction: multiset of (kind, name) with closures inlined and iterator / Option / Result plumbing dropped"""
+    seen = seen if seen is not None else set()
+    out = collections.Counter()
+    if b['q'] in seen:
+        return out
+    seen.add(b['q'])
+    for (kind, name, depth, cx), n in bag(F, b).items():
+        if kind == 'CALL' and PLUMBING.match(name):
+            continue
+        if kind == 'AGGR' and (name.startswith('std::option::Option::') or name.startswith('std::result::Result::') or name.startswith('std::ops::ControlFlow::') or name.startswith('closure:')):
+            continue
+        if kind == 'BINOP':
+            continue
+        out[(kind, name)] += n
+    for bb in b['blocks']:
+        if bb['cleanup']:
+            continue
+        for s in bb['stmts']:
+            if s['k'] == 'assign' and s['rv']['k'] == 'aggr' and s['rv']['ak'].startswith('closure:'):
+                cb = F.bodies.get(s['rv']['ak'][len('closure:'):])
+                if cb is not None:
+                    out.update(coarse(F, cb, seen))
+    return out
+
+
+def rule_coverage(ctx):
+    """function -> [obligations, all discharged] over the dedicated rules of every other property (SIB is the net for what they do not look at)"""
+    if 'rule_coverage' in ctx.cache:
+        return ctx.cache['rule_coverage']
+    from . import props
+    cov = {}
+    for pid, spec in props.PROPS.items():
+        if pid in ('C15', 'C14', 'C16'):
+            continue
+        for name, fn in spec['rules']:
+            try:
+                obs = fn(ctx)
+            except Exception:
+                continue
+            for o in obs:
+                c = cov.setdefault(o['func'], [0, True])
+                c[0] += 1
+                c[1] = c[1] and o['ok']
+    ctx.cache['rule_coverage'] = cov
+    return cov
+
+
 def sib(ctx):
     F = ctx.F
     out = []
     ps, op, os_ = pairs(F)
+    cov = None
+    tolerated = []
     for pa, sy in ps:
         ea, es = bag(F, pa), bag(F, sy)
         if ea == es:
@@ -160,6 +215,18 @@ def sib(ctx):
         else:
             ok = False
             d1, d2 = ea - es, es - ea
+            # a structural rewrite of one copy is tolerated when both copies are covered by, and pass, dedicated semantic rules
+            # and involve the same operations (closures inlined, iterator/Option/Result plumbing ignored)
+            owner_a = re.sub(r'(::\{closure#\d+\})+$', '', pa['q'])
+            owner_s = re.sub(r'(::\{closure#\d+\})+$', '', sy['q'])
+            if coarse(F, F.bodies.get(owner_a, pa)) == coarse(F, F.bodies.get(owner_s, sy)):
+                cov = cov if cov is not None else rule_coverage(ctx)
+                ca, cs = cov.get(owner_a), cov.get(owner_s)
+                if ca and cs and ca[0] > 0 and cs[0] > 0 and ca[1] and cs[1]:
+                    tolerated.append('%s (%d/%d dedicated obligations pass)' % (sy['q'], ca[0], cs[0]))
+                    out.append(Obl('SIB', unflav(pa['q']).replace('F::', '%s|%s::' % (F.flavour(pa), F.flavour(sy)), 1), sy['span'], 'same program up to Rc/Arc, RefCell/RwLock', True,
+                                   'control structure differs, same operations; both copies pass their dedicated rules (%d / %d obligations)' % (ca[0], cs[0])))
+                    continue
             why = 'plain-only: %s | sync-only: %s' % ('; '.join('%s %s d%d [%s] x%d' % (k[0], k[1], k[2], ','.join(k[3]), n) for k, n in list(d1.items())[:4]),
                                                        '; '.join('%s %s d%d [%s] x%d' % (k[0], k[1], k[2], ','.join(k[3]), n) for k, n in list(d2.items())[:4]))
         out.append(Obl('SIB', unflav(pa['q']).replace('F::', '%s|%s::' % (F.flavour(pa), F.flavour(sy)), 1), sy['span'], 'same program up to Rc/Arc, RefCell/RwLock', ok, why))
@@ -202,6 +269,7 @@ def sib(ctx):
                 # one-sided API: listed in the evidence, not judged (the property is about the common API)
                 ctx.cache.setdefault('evidence_extra', {}).setdefault('C15', {}).setdefault('one_sided_impls', []).append('%s for %s only in %s' % (x[1], x[0], a if x in ta else s))
     ctx.cache.setdefault('evidence_extra', {}).setdefault('C15', {})['unpaired_functions'] = {'plain_only': op, 'sync_only': os_}
+    ctx.cache['evidence_extra']['C15']['structural_differences_tolerated'] = tolerated
     return out
 
 
